@@ -63,6 +63,7 @@ func TestVerifC17(t *testing.T) {
 		ctx.Group("paging", ctx.N(2, 16), c17Quietly(ctx, func(cs *vkit.Case) { c17PagingCase(ctx, cs) }))
 		c17AnnFloor(ctx, "paging")
 		ctx.Group("expiry", ctx.N(8, 64), c17Quietly(ctx, func(cs *vkit.Case) { c17ExpiryCase(ctx, cs) }))
+		ctx.Group("scaled", ctx.N(40, 600), c17Quietly(ctx, func(cs *vkit.Case) { c17ScaledCase(ctx, cs) }))
 	})
 }
 
